@@ -36,15 +36,17 @@ fn describe() -> Describe {
                x base {0, 0x10000, 0x7f0000000000}. Oracle = the abstract description: expected byte/permission/unmapped for every \
                address around every segment, architecture and endianness, the entry set; and the differential clause: everything \
                reported at base B equals the base-0 report + B (sections, function entries, symbols, program entry). \
-               Linking (ElfLinker, EM_386): every topology of {main, libA.so, libB.so} in {main->A; main->A,B; main->A->B; \
+               Linking (ElfLinker; EM_386, and EM_MIPS in both byte orders): every topology of {main, libA.so, libB.so} in {main->A; main->A,B; main->A->B; \
                main->A,B with A->B; main->B,A} x every assignment of {no relocation, R_386_RELATIVE, {R_386_GLOB_DAT, R_386_JMP_SLOT, \
                R_386_32} x every symbol defined in the link} to the relocation slots of every object (1 slot per object in quick; 2 \
                for main and libA in thorough); the objects are written to a scratch directory and linked; every relocated word \
                must hold base(definer)+value (base(self)+addend for RELATIVE) and every other byte of the linked image must be \
-               the union of the objects' images at the bases the linker reports. A link that returns an error is counted, not judged.",
+               the union of the objects' images at the bases the linker reports. MIPS: per object {no external GOT symbol, each external symbol} x {no R_MIPS_REL32, a local one, one naming each \
+               symbol of the link}; GOT local/global entries and REL32 words are the relocated words. \
+               A link that returns an error is counted, not judged.",
         assumptions: vec![
             "ELF writer in the harness (independent of goblin); dynamic symbols are published through a DT_HASH-sized .dynsym in an extra R segment which is part of the expected image".into(),
-            "MIPS relocation processing (GOT rebasing, R_MIPS_REL32) by ElfLinker is outside this check; symbol names are unique per link (no interposition order is assumed)".into(),
+            "symbol names are unique per link (no interposition order is assumed); GOT[0] (reserved for the resolver) is not compared".into(),
         ],
         engine: "grid enumerator over abstract ELF images (16 processes)",
     }
